@@ -63,6 +63,11 @@ CLAIMS = {
         design_ref="DESIGN.md §3 C15",
         note="Exact union-of-ranges semantics and the exact refusal condition are not decided. Trusted base as C17.",
         technique="static analysis: effect-freedom on Err paths (T10) over the rustc MIR CFG with callee summaries"),
+    'C12': dict(
+        text="The single fragmenter is only (re)started behind an idle guard and sockets are not dequeued while fragments are pending; fragment size is (MTU-header) rounded down to 8 and both emitters use it; more-fragments = remaining != this payload; reassembly key has the four RFC 791 fields; delivery only behind total-size-known and contiguous-front==total; slots are only freed through reset(), which clears ranges and total size; all fragments carry the identification chosen at the start; header setters are followed by a checksum re-fill (R08.1).",
+        design_ref="DESIGN.md §3 C12",
+        note="Behaviour under permutation/duplication of fragments and gap limits is not decided. Trusted base as C17.",
+        technique="static analysis: guard must-pass-through, value-origin shapes, who-may-write over rustc MIR"),
 }
 
 NOT_YET = "structural rules for this property are not built yet in this revision; no static claim is made"
